@@ -25,9 +25,9 @@ import (
 	esreader "github.com/siglens/siglens/pkg/es/reader"
 	eswriter "github.com/siglens/siglens/pkg/es/writer"
 	"github.com/siglens/siglens/pkg/hooks"
+	"github.com/siglens/siglens/pkg/integrations/loki"
 	otsdbwriter "github.com/siglens/siglens/pkg/integrations/otsdb/writer"
 	prometheuswriter "github.com/siglens/siglens/pkg/integrations/prometheus/ingest"
-	"github.com/siglens/siglens/pkg/integrations/loki"
 	"github.com/siglens/siglens/pkg/integrations/splunk"
 	"github.com/siglens/siglens/pkg/lookups"
 	"github.com/siglens/siglens/pkg/otlp"
